@@ -490,6 +490,10 @@ process_trace(struct trace *trace)
 		die("malloc failed:");
 
 	for (struct stream *stream = trace->streams; stream; stream = stream->next) {
+		/* A stream without events is already sorted */
+		if (!stream->active)
+			continue;
+
 		stream_allow_unsorted(stream);
 
 		if (operation_mode == SORT) {
